@@ -327,7 +327,7 @@ fn seed_corpus(tier: Tier) -> Vec<(String, FileSet)> {
     }
     for (i, edges) in [vec![vec![1], vec![2], vec![0]], vec![vec![1, 2], vec![2], vec![]], vec![vec![0]], vec![vec![1], vec![0], vec![]]].into_iter().enumerate() {
         let n = edges.len();
-        c.push((format!("graph{i}"), crate::c11::render(&crate::c11::Graph { n, edges, start: 0, noise: crate::c11::Noise::None, same_suffix: false, declare_prefixes: true, tns_of: vec![] })));
+        c.push((format!("graph{i}"), crate::c11::render(&crate::c11::Graph { n, edges, start: 0, noise: crate::c11::Noise::None, same_suffix: false, declare_prefixes: true, tns_of: vec![], includes: vec![] })));
     }
     c.push(("ext-chain".into(), FileSet::single("ext.xsd", EXT_CHAIN)));
     c
